@@ -444,12 +444,13 @@ const (
 	c08Reest    = c08NumFaultKinds
 	c08Other    = c08NumFaultKinds + 1
 	c08PeerErr  = c08NumFaultKinds + 2
-	c08NumKinds = c08NumFaultKinds + 3
+	c08Epoch    = c08NumFaultKinds + 3 // marker: new connection epoch
+	c08NumKinds = c08NumFaultKinds + 4
 )
 
 var c08KindNames = [...]string{
 	"add", "commit_sig", "revoke", "fulfill", "fail", "reestablish",
-	"other", "error",
+	"other", "error", "new_epoch",
 }
 
 type c08Event struct {
@@ -515,6 +516,10 @@ func (t *c08Tap) newPhase(p int) {
 	t.phase = p
 	for i := range t.epoch {
 		t.epoch[i]++
+		t.log = append(t.log, c08Event{
+			seq: len(t.log), phase: p, epoch: t.epoch[i],
+			edge: c08Edge(i), kind: c08Epoch,
+		})
 	}
 	t.phaseCount = 0
 	t.kindCount = [c08NumEdges][c08NumKinds]int{}
@@ -531,6 +536,10 @@ func (t *c08Tap) reconnect(e c08Edge) {
 	for _, x := range []c08Edge{e, e.reverse()} {
 		t.cut[x] = false
 		t.epoch[x]++
+		t.log = append(t.log, c08Event{
+			seq: len(t.log), phase: t.phase, epoch: t.epoch[x],
+			edge: x, kind: c08Epoch,
+		})
 	}
 	t.lastEvent = time.Now()
 }
